@@ -67,13 +67,13 @@ def plan_for(ops, tier, rnd):
     return inj, exhaustive, K
 
 
-def run_injection(built, proj, expected, k, action, rules, xdev=False, stdio=False):
+def run_injection(built, proj, expected, k, action, rules, xdev=False, stdio=False, reads=False):
     import shutil
     with core.Box(tag="c07") as box:
         cfg = proj.materialise(box)
         td = fault.foreign_tmpdir(box) if xdev else None
         try:
-            rec = core.run_breadlog(built, box, cfg, rules=rules, timeout=120, tmpdir=td, stdio_ops=stdio)
+            rec = core.run_breadlog(built, box, cfg, rules=rules, timeout=120, tmpdir=td, stdio_ops=stdio, read_ops=reads)
         finally:
             if td:
                 shutil.rmtree(td, ignore_errors=True)
@@ -87,12 +87,17 @@ def work(job):
     built, pi, proj, expected, k, action, rules, phase = job[:8]
     xdev = job[8] if len(job) > 8 else False
     stdio = job[9] if len(job) > 9 else False
+    reads = str(action).startswith("read-") or action == "all-reads-short"
     res = {"evaluations": 1, "nontrivial": [], "violations": [], "samples": [], "inconclusive": {}, "counters": {}}
-    rec, states, other, fired = run_injection(built, proj, expected, k, action, rules, xdev, stdio)
+    rec, states, other, fired = run_injection(built, proj, expected, k, action, rules, xdev, stdio, reads)
+    if reads:
+        res["counters"]["read_fault_injections"] = 1
     if xdev:
         phase = "xdev:" + phase
         res["counters"]["cross_device_tmpdir_injections"] = 1
-    if action.startswith("short+"):
+    if reads:
+        pass
+    elif action.startswith("short+"):
         res["counters"]["partial_failure_injections"] = 1
         fired = fired if len(fired) >= 2 else []
     elif ";" in (rules or ""):
@@ -118,7 +123,7 @@ def work(job):
     # online trace rule: nothing is written through a name that is already a source file
     through = [o for o in (rec.shim or []) if fault.phase_of(o) in TRACE_RULE_PHASES]
     torn = {rel: s for rel, s in states.items() if s.startswith("torn")}
-    act_class = action if action in ("kill-before", "kill-after", "short", "EPIPE-on-log-line") else "short+errno" if action.startswith("short+") else ("persistent-errno" if action.startswith("persistent") else ("errno+kill" if "+kill" in action else "errno"))
+    act_class = action if (action in ("kill-before", "kill-after", "short", "EPIPE-on-log-line", "all-reads-short") or action.startswith("read-")) else "short+errno" if action.startswith("short+") else ("persistent-errno" if action.startswith("persistent") else ("errno+kill" if "+kill" in action else "errno"))
     for rel, s in sorted(torn.items()):
         res["violations"].append({"signature": "C07.%s|%s|%s" % (s, act_class, phase),
                                   "detail": {"file": rel, "state": s, "k": k, "action": action, "phase": phase, "end": rec.ended(),
@@ -242,6 +247,10 @@ def main(tier):
         for o in sops:
             if o["kind"] == "stdio":
                 jobs.append((built, pi, proj, expected, o["n"], "EPIPE-on-log-line", "n=%d,kind=stdio,act=errno:32" % o["n"], "log-line", False, True))
+        # faults on the read side: every read(2) on a source file fails / is short / is short and then fails
+        rops, _, _, _, _ = fault.clean_reference(built, proj, read_ops=True)
+        for label, rules in fault.read_fault_rules(rops):
+            jobs.append((built, pi, proj, expected, label.split("@")[-1], label.split("@")[0], rules, "src-read"))
         # persistent faults: every rename (temp create, temp write) fails with E for the whole run
         for e in ("EIO", "EACCES", "EPERM", "EXDEV", "ENOSPC", "EBUSY", "EEXIST"):
             for kind, scope in (("rename", "kind=rename,path~=breadlog-"), ("openw", "kind=openw,path~=breadlog-"), ("write", "kind=write,path~=breadlog-")):
